@@ -605,7 +605,7 @@ func vgenAttr(r *rand.Rand, t BGPAttrType, c *vgenAttrCtx) PathAttributeInterfac
 	case BGP_ATTR_TYPE_AS_PATH:
 		return vgenAsPath(r, c)
 	case BGP_ATTR_TYPE_NEXT_HOP:
-		a, _ := NewPathAttributeNextHop(vgenAddr(r, vgenChance(r, 6)))
+		a, _ := NewPathAttributeNextHop(vgenAddr4(r)) // RFC 4271 5.1.3: an IPv4 address
 		return a
 	case BGP_ATTR_TYPE_MULTI_EXIT_DISC:
 		return NewPathAttributeMultiExitDisc(vgenU32(r))
@@ -622,7 +622,7 @@ func vgenAttr(r *rand.Rand, t BGPAttrType, c *vgenAttrCtx) PathAttributeInterfac
 		}
 		return a
 	case BGP_ATTR_TYPE_COMMUNITIES:
-		n := vgenCount(r, 4, c.big)
+		n := max(1, vgenCount(r, 4, c.big)) // RFC 7606 7.8: a zero-length COMMUNITIES is malformed
 		v := make([]uint32, n, n+4)
 		for i := range v {
 			v[i] = vgenPick(r, vgenU32(r), 0xffffff01, 0xffffff02, 0xffff029a, uint32(65000<<16|i))
@@ -632,7 +632,7 @@ func vgenAttr(r *rand.Rand, t BGPAttrType, c *vgenAttrCtx) PathAttributeInterfac
 		a, _ := NewPathAttributeOriginatorId(vgenAddr4(r))
 		return a
 	case BGP_ATTR_TYPE_CLUSTER_LIST:
-		n := vgenCount(r, 4, c.big)
+		n := max(1, vgenCount(r, 4, c.big)) // RFC 7606 7.10
 		v := make([]netip.Addr, n)
 		for i := range v {
 			v[i] = vgenAddr4(r)
@@ -640,7 +640,7 @@ func vgenAttr(r *rand.Rand, t BGPAttrType, c *vgenAttrCtx) PathAttributeInterfac
 		a, _ := NewPathAttributeClusterList(v)
 		return a
 	case BGP_ATTR_TYPE_EXTENDED_COMMUNITIES:
-		n := vgenCount(r, 8, c.big)
+		n := max(1, vgenCount(r, 8, c.big)) // RFC 7606 7.14
 		v := make([]ExtendedCommunityInterface, 0, n+2)
 		for i := 0; i < n; i++ {
 			e := vgenExtComm(r, c.quirk, c.tags)
@@ -685,7 +685,7 @@ func vgenAttr(r *rand.Rand, t BGPAttrType, c *vgenAttrCtx) PathAttributeInterfac
 	case BGP_ATTR_TYPE_LS:
 		return vgenLsAttr(r, c)
 	case BGP_ATTR_TYPE_LARGE_COMMUNITY:
-		n := vgenCount(r, 12, c.big)
+		n := max(1, vgenCount(r, 12, c.big)) // RFC 8092 5
 		v := make([]*LargeCommunity, n, n+2)
 		for i := range v {
 			v[i] = NewLargeCommunity(vgenU32(r), vgenU32(r), vgenU32(r))
